@@ -60,36 +60,175 @@ func c19runMutates(r *c19run) ast.Node {
 	return at
 }
 
+// c19launch is one way an adapter starts run: the call of run (directly in the adapter, or in a
+// same-package launcher the adapter calls) with run's arguments expressed in the adapter.
+type c19launch struct {
+	at   *ast.CallExpr
+	args []ast.Expr // run's arguments as expressions of the adapter (nil = cannot be expressed)
+}
+
 func c19Adapters(c *core.Ctx, r *c19run) {
-	n := 0
-	eachFunc(c, func(pkg *packages.Package, fd *ast.FuncDecl) {
-		if relPkg(pkg.PkgPath) != c19pkg || fd == r.f.Node {
-			return
-		}
-		f := flow.NewFunc(pkg, fd)
-		var rc []*ast.CallExpr
-		for _, call := range calls(fd.Body, true) {
-			if r.runObj != nil && f.Callee(call) == types.Object(r.runObj) {
-				rc = append(rc, call)
+	pkgp := r.f.Pkg
+	// functions that call run themselves (function literals included)
+	direct := map[*ast.FuncDecl][]*ast.CallExpr{}
+	var decls []*ast.FuncDecl
+	for _, file := range pkgp.Syntax {
+		for _, d := range file.Decls {
+			fd, ok := d.(*ast.FuncDecl)
+			if !ok || fd.Body == nil || fd == r.f.Node {
+				continue
+			}
+			decls = append(decls, fd)
+			f := funcOfDecl(pkgp, fd)
+			for _, call := range calls(fd.Body, true) {
+				if r.runObj != nil && f.Callee(call) == types.Object(r.runObj) {
+					direct[fd] = append(direct[fd], call)
+				}
 			}
 		}
-		if len(rc) == 0 {
-			return
+	}
+	n := 0
+	for _, fd := range decls {
+		f := funcOfDecl(pkgp, fd)
+		// an adapter hands a channel back to the caller
+		if fd.Type.Results == nil || len(fd.Type.Results.List) == 0 {
+			continue
+		}
+		if _, ok := f.Info.TypeOf(fd.Type.Results.List[0].Type).Underlying().(*types.Chan); !ok {
+			continue
+		}
+		var ls []c19launch
+		for _, call := range direct[fd] {
+			ls = append(ls, c19launch{call, call.Args})
+		}
+		for _, call := range calls(fd.Body, true) {
+			fo, ok := f.Callee(call).(*types.Func)
+			if !ok || fo.Pkg() != pkgp.Types {
+				continue
+			}
+			hfd := declOf(pkgp, fo)
+			if hfd == nil || hfd == fd || len(direct[hfd]) != 1 {
+				continue
+			}
+			// run's arguments inside the launcher, rewritten to the adapter's arguments
+			h := funcOfDecl(pkgp, hfd)
+			hps := c19params(h, hfd.Type)
+			var args []ast.Expr
+			for _, ra := range direct[hfd][0].Args {
+				var e ast.Expr
+				if o := c19obj(h, ra); o != nil && len(hps) == len(call.Args) {
+					for i, hp := range hps {
+						if types.Object(hp) == o {
+							e = call.Args[i]
+						}
+					}
+				}
+				args = append(args, e)
+			}
+			ls = append(ls, c19launch{call, args})
+		}
+		if len(ls) == 0 {
+			continue
 		}
 		n++
 		c.Count("functions_analysed", 1)
-		c19Adapter(c, r, pkg, fd, f, rc)
-	})
-	c.RequireCount("R-C19-5", "syncer methods that start run", n, 4)
+		c19Adapter(c, r, pkgp, fd, f, ls)
+	}
+	c.RequireCount("R-C19-5", "functions that return a channel and start run", n, 4)
 }
 
-func c19Adapter(c *core.Ctx, r *c19run, pkg *packages.Package, fd *ast.FuncDecl, f *flow.Func, rc []*ast.CallExpr) {
+func funcOfDecl(pkg *packages.Package, fd *ast.FuncDecl) *flow.Func { return flow.NewFunc(pkg, fd) }
+
+// c19target extracts what run is started on from its (non-callback) arguments: the key
+// expression and the constant prefix flag, given as separate arguments or as the fields of a
+// struct literal.
+func c19target(f *flow.Func, args []ast.Expr) (key ast.Expr, prefix, prefixConst bool, cb ast.Expr, ok bool) {
+	ok = true
+	sawBool := false
+	setBool := func(e ast.Expr) {
+		sawBool = true
+		if v, isC := c19constBool(f, e); isC {
+			prefix, prefixConst = v, true
+		} else {
+			prefixConst = false
+		}
+	}
+	for _, a := range args {
+		if a == nil {
+			return nil, false, false, nil, false
+		}
+		t := f.Info.TypeOf(a)
+		if t == nil {
+			return nil, false, false, nil, false
+		}
+		switch {
+		case c19isString(t):
+			key = a
+		case c19isBool(t):
+			setBool(a)
+		default:
+			if _, isSig := t.Underlying().(*types.Signature); isSig {
+				cb = a
+				continue
+			}
+			ut := t
+			if p, isPtr := ut.Underlying().(*types.Pointer); isPtr {
+				ut = p.Elem()
+			}
+			stt, isStruct := ut.Underlying().(*types.Struct)
+			if !isStruct {
+				continue
+			}
+			x := ast.Unparen(a)
+			if u, isAddr := x.(*ast.UnaryExpr); isAddr {
+				x = ast.Unparen(u.X)
+			}
+			cl, isLit := x.(*ast.CompositeLit)
+			if !isLit {
+				return nil, false, false, nil, false
+			}
+			hasBoolField := false
+			for i := 0; i < stt.NumFields(); i++ {
+				if c19isBool(stt.Field(i).Type()) {
+					hasBoolField = true
+				}
+			}
+			for i, el := range cl.Elts {
+				var fld *types.Var
+				val := el
+				if kv, isKV := el.(*ast.KeyValueExpr); isKV {
+					if k, isID := kv.Key.(*ast.Ident); isID {
+						fld, _ = f.Info.Uses[k].(*types.Var)
+					}
+					val = kv.Value
+				} else if i < stt.NumFields() {
+					fld = stt.Field(i)
+				}
+				if fld == nil {
+					continue
+				}
+				switch {
+				case c19isString(fld.Type()):
+					key = val
+				case c19isBool(fld.Type()):
+					setBool(val)
+				}
+			}
+			if hasBoolField && !sawBool {
+				sawBool, prefix, prefixConst = true, false, true // zero value
+			}
+		}
+	}
+	return key, prefix, prefixConst && sawBool, cb, ok && sawBool
+}
+
+func c19Adapter(c *core.Ctx, r *c19run, pkg *packages.Package, fd *ast.FuncDecl, f *flow.Func, ls []c19launch) {
 	cons := declName(pkg, fd)
-	if len(rc) != 1 {
-		c.Undecide("R-C19-5", cons+"|run", pos(c, rc[1]), "more than one call of run in an adapter")
+	if len(ls) != 1 {
+		c.Undecide("R-C19-5", cons+"|run", pos(c, ls[1].at), "run is started more than once by an adapter")
 		return
 	}
-	run := rc[0]
+	run := ls[0].at
 	// the adapter's key parameter
 	var keyP *types.Var
 	for _, v := range c19params(f, f.Type) {
@@ -117,8 +256,9 @@ func c19Adapter(c *core.Ctx, r *c19run, pkg *packages.Package, fd *ast.FuncDecl,
 		}
 		return true
 	})
-	if keyP == nil || chObj == nil || !okCh || len(run.Args) != 3 {
-		c.Undecide("R-C19-5", cons+"|run", pos(c, fd), "cannot identify the adapter's key parameter / returned channel / run arguments")
+	keyExpr, prefixVal, prefixConst, cbExpr, okT := c19target(f, ls[0].args)
+	if keyP == nil || chObj == nil || !okCh || !okT || keyExpr == nil || cbExpr == nil {
+		c.Undecide("R-C19-5", cons+"|run", pos(c, fd), "cannot identify the adapter's key parameter / returned channel / what run is started on")
 		return
 	}
 	cht, ok := chObj.Type().Underlying().(*types.Chan)
@@ -128,12 +268,13 @@ func c19Adapter(c *core.Ctx, r *c19run, pkg *packages.Package, fd *ast.FuncDecl,
 	}
 	_, isMap := cht.Elem().Underlying().(*types.Map)
 
-	c.Check(c19obj(f, run.Args[0]) == types.Object(keyP), "R-C19-5", cons+"|runs on the adapter's key", pos(c, run),
+	c.Check(c19obj(f, keyExpr) == types.Object(keyP), "R-C19-5", cons+"|runs on the adapter's key", pos(c, run),
 		"run's key argument is the adapter's own parameter",
 		"run is started on something else than the key/prefix the caller asked for: the channel delivers the content of another key")
-	if pv, isC := c19constBool(f, run.Args[1]); !isC {
+	if !prefixConst {
 		c.Undecide("R-C19-5", cons+"|prefix flag matches the channel type", pos(c, run), "run's prefix argument is not a constant")
 	} else {
+		pv := prefixVal
 		why := "a single-value channel is fed by a prefix syncer: every change of any key under the prefix re-delivers the unchanged value (consecutive snapshots equal)"
 		if isMap {
 			why = "a map channel (all keys under a prefix) is fed by a single-key syncer: only the key equal to the prefix itself is read; puts and deletes under the prefix are never delivered"
@@ -143,7 +284,7 @@ func c19Adapter(c *core.Ctx, r *c19run, pkg *packages.Package, fd *ast.FuncDecl,
 	}
 	// the callback
 	var lit *ast.FuncLit
-	switch a := ast.Unparen(run.Args[2]).(type) {
+	switch a := ast.Unparen(cbExpr).(type) {
 	case *ast.FuncLit:
 		lit = a
 	case *ast.Ident:
@@ -220,7 +361,7 @@ func c19Adapter(c *core.Ctx, r *c19run, pkg *packages.Package, fd *ast.FuncDecl,
 		if !ok || cc.Comm == nil {
 			return true
 		}
-		if sel, ok := c19recvFrom(cc.Comm).(*ast.SelectorExpr); ok {
+		if sel, ok := c19resolveLocal(f, c19recvFrom(cc.Comm)).(*ast.SelectorExpr); ok {
 			if sl := lf.Info.Selections[sel]; sl != nil {
 				for _, fld := range chanFields {
 					if sl.Obj() == fld {
@@ -237,48 +378,10 @@ func c19Adapter(c *core.Ctx, r *c19run, pkg *packages.Package, fd *ast.FuncDecl,
 		}
 		st.Set(c19evChSent, flow.True)
 	}
-	// map adapters: the copy loop
-	var L *ast.RangeStmt
-	nLoops := 0
-	c19inspect(lit, func(n ast.Node) bool {
-		if rs, ok := n.(*ast.RangeStmt); ok && isData(rs.X) {
-			L = rs
-			nLoops++
-		}
-		return true
-	})
-	var mObj types.Object // the map that is sent (map adapters)
-	if isMap {
-		for _, s := range sends {
-			o := c19obj(lf, s.Value)
-			if o == nil || (mObj != nil && mObj != o) {
-				c.Undecide("R-C19-5", cons+"|callback", pos(c, s), "the value sent is not a single map variable")
-				return
-			}
-			mObj = o
-		}
-	}
-	isStore := func(n ast.Node) bool {
-		as, ok := n.(*ast.AssignStmt)
-		if !ok || L == nil || mObj == nil {
-			return false
-		}
-		for _, l := range as.Lhs {
-			if ix, ok := ast.Unparen(l).(*ast.IndexExpr); ok && c19obj(lf, ix.X) == mObj && c19obj(lf, ix.Index) != nil && c19obj(lf, ix.Index) == c19obj(lf, L.Key) {
-				return true
-			}
-		}
-		return false
-	}
-	var badSkip *flow.State
-	iters := 0
 	res := analyze(c, lf, flow.Config{NoHavoc: true,
 		OnNode: func(st *flow.State, n ast.Node) {
 			if s, ok := n.(*ast.SendStmt); ok && c19obj(lf, s.Chan) == chObj && !inSelect[s] {
 				markSent(st)
-			}
-			if isStore(n) {
-				st.Set(c19evStored, flow.True)
 			}
 		},
 		OnBlock: func(st *flow.State, b *cfg.Block) {
@@ -289,25 +392,6 @@ func c19Adapter(c *core.Ctx, r *c19run, pkg *packages.Package, fd *ast.FuncDecl,
 				if commClose[b.Stmt] {
 					st.Set(c19evClosed, flow.True)
 				}
-			}
-			if L == nil || b.Stmt != L {
-				return
-			}
-			switch b.Kind {
-			case cfg.KindRangeBody:
-				st.Set(c19evBody, flow.True)
-				st.Set(c19evStored, flow.False)
-			case cfg.KindRangeLoop:
-				if st.Is(c19evBody, flow.True) {
-					iters++
-					if !st.Is(c19evStored, flow.True) && badSkip == nil {
-						badSkip = st
-					}
-				}
-				st.Set(c19evBody, flow.Unknown)
-				st.Set(c19evStored, flow.Unknown)
-			case cfg.KindRangeDone:
-				st.Set(c19evDone, flow.True)
 			}
 		}})
 	if res == nil {
@@ -344,28 +428,152 @@ func c19Adapter(c *core.Ctx, r *c19run, pkg *packages.Package, fd *ast.FuncDecl,
 		return
 	}
 
-	// ---- map adapters
-	aliased := types.Object(dataP) == mObj
-	if aliased {
-		at := c19runMutates(r)
-		c.Check(at == nil, "R-C19-5", cons+"|delivered map is not mutated afterwards", pos(c, sends[0]),
-			"the snapshot map itself is sent, and run never writes into a snapshot map in place (it replaces it)",
-			"the snapshot map itself is handed to the consumer and run writes into snapshot maps in place ("+pos(c, at)+"): a delivered snapshot changes under the consumer's hands")
+	// ---- map adapters: what is sent is the snapshot itself, a map variable filled by the
+	// callback, or the result of a same-package converter applied to the snapshot
+	var handover []ast.Node
+	for _, s := range sends {
+		handover = append(handover, s)
+	}
+	v0 := ast.Unparen(sends[0].Value)
+	if call, isCall := v0.(*ast.CallExpr); isCall && len(sends) == 1 {
+		fo, _ := lf.Callee(call).(*types.Func)
+		var hfd *ast.FuncDecl
+		if fo != nil && fo.Pkg() == pkg.Types {
+			hfd = declOf(pkg, fo)
+		}
+		idx := -1
+		for i, a := range call.Args {
+			if isData(a) {
+				idx = i
+			}
+		}
+		if hfd == nil || idx < 0 {
+			c.Undecide("R-C19-5", cons+"|callback", pos(c, sends[0]), "the value sent is a call that is not a same-package converter of the snapshot")
+			return
+		}
+		h := flow.NewFunc(pkg, hfd)
+		hps := c19params(h, hfd.Type)
+		if len(hps) != len(call.Args) {
+			c.Undecide("R-C19-5", cons+"|callback", pos(c, sends[0]), "cannot bind the converter's parameters")
+			return
+		}
+		var mObj types.Object
+		var rets []ast.Node
+		okRet := true
+		c19inspect(hfd.Body, func(n ast.Node) bool {
+			if rs, ok := n.(*ast.ReturnStmt); ok {
+				rets = append(rets, rs)
+				if len(rs.Results) != 1 {
+					okRet = false
+					return true
+				}
+				o := c19obj(h, rs.Results[0])
+				if o == nil || (mObj != nil && mObj != o) {
+					okRet = false
+				}
+				mObj = o
+			}
+			return true
+		})
+		if !okRet || mObj == nil {
+			c.Undecide("R-C19-5", cons+"|callback", pos(c, hfd), "the converter does not return a single map variable")
+			return
+		}
+		c.Count("functions_analysed", 1)
+		c19CopyChecks(c, r, cons, h, hfd.Body, hps[idx], mObj, rets, sends[0])
 		return
 	}
+	var mObj types.Object
+	for _, s := range sends {
+		o := c19obj(lf, s.Value)
+		if o == nil || (mObj != nil && mObj != o) {
+			c.Undecide("R-C19-5", cons+"|callback", pos(c, s), "the value sent is not a single map variable")
+			return
+		}
+		mObj = o
+	}
+	c19CopyChecks(c, r, cons, lf, lit, dataP, mObj, handover, sends[0])
+}
+
+// c19CopyChecks: function g (root = its literal or body) turns the snapshot dataObj into the map
+// mObj that is handed over (sent / returned) at the handover statements: a fresh map, every key
+// copied with the snapshot's value, handed over after the copy is complete — or the snapshot
+// itself, provided run never writes into a snapshot map.
+func c19CopyChecks(c *core.Ctx, r *c19run, cons string, g *flow.Func, root ast.Node, dataObj, mObj types.Object, handover []ast.Node, at ast.Node) {
+	isData := func(e ast.Expr) bool { return c19obj(g, e) == dataObj }
+	if dataObj == mObj {
+		mut := c19runMutates(r)
+		c.Check(mut == nil, "R-C19-5", cons+"|delivered map is not mutated afterwards", pos(c, at),
+			"the snapshot map itself is sent, and run never writes into a snapshot map in place (it replaces it)",
+			"the snapshot map itself is handed to the consumer and run writes into snapshot maps in place ("+pos(c, mut)+"): a delivered snapshot changes under the consumer's hands")
+		return
+	}
+	var L *ast.RangeStmt
+	nLoops := 0
+	c19inspect(root, func(n ast.Node) bool {
+		if rs, ok := n.(*ast.RangeStmt); ok && isData(rs.X) {
+			L = rs
+			nLoops++
+		}
+		return true
+	})
 	if nLoops != 1 {
-		c.Violate("R-C19-5", cons+"|every key of the snapshot is copied", pos(c, lit),
-			"the callback sends a map but does not fill it in a loop over the snapshot: the delivered map is not the store's content")
+		c.Violate("R-C19-5", cons+"|every key of the snapshot is copied", pos(c, root),
+			"a map is delivered that is not filled in a loop over the snapshot: the delivered map is not the store's content")
+		return
+	}
+	isStore := func(n ast.Node) bool {
+		as, ok := n.(*ast.AssignStmt)
+		if !ok {
+			return false
+		}
+		for _, l := range as.Lhs {
+			if ix, ok := ast.Unparen(l).(*ast.IndexExpr); ok && c19obj(g, ix.X) == mObj && c19obj(g, ix.Index) != nil && c19obj(g, ix.Index) == c19obj(g, L.Key) {
+				return true
+			}
+		}
+		return false
+	}
+	var badSkip *flow.State
+	iters := 0
+	res := analyze(c, g, flow.Config{NoHavoc: true,
+		OnNode: func(st *flow.State, n ast.Node) {
+			if isStore(n) {
+				st.Set(c19evStored, flow.True)
+			}
+		},
+		OnBlock: func(st *flow.State, b *cfg.Block) {
+			if b.Stmt != L {
+				return
+			}
+			switch b.Kind {
+			case cfg.KindRangeBody:
+				st.Set(c19evBody, flow.True)
+				st.Set(c19evStored, flow.False)
+			case cfg.KindRangeLoop:
+				if st.Is(c19evBody, flow.True) {
+					iters++
+					if !st.Is(c19evStored, flow.True) && badSkip == nil {
+						badSkip = st
+					}
+				}
+				st.Set(c19evBody, flow.Unknown)
+				st.Set(c19evStored, flow.Unknown)
+			case cfg.KindRangeDone:
+				st.Set(c19evDone, flow.True)
+			}
+		}})
+	if res == nil {
 		return
 	}
 	// fresh map
 	fresh := false
-	c19inspect(lit, func(n ast.Node) bool {
+	c19inspect(root, func(n ast.Node) bool {
 		if as, ok := n.(*ast.AssignStmt); ok && len(as.Lhs) == len(as.Rhs) {
 			for i, l := range as.Lhs {
-				if c19obj(lf, l) == mObj {
+				if c19obj(g, l) == mObj {
 					if call, ok := ast.Unparen(as.Rhs[i]).(*ast.CallExpr); ok {
-						if b, ok := lf.Callee(call).(*types.Builtin); ok && b.Name() == "make" {
+						if b, ok := g.Callee(call).(*types.Builtin); ok && b.Name() == "make" {
 							fresh = true
 						}
 					}
@@ -377,19 +585,26 @@ func c19Adapter(c *core.Ctx, r *c19run, pkg *packages.Package, fd *ast.FuncDecl,
 		}
 		return true
 	})
-	c.Check(fresh, "R-C19-5", cons+"|delivered map is not mutated afterwards", pos(c, sends[0]),
-		"the map sent is created inside the callback for this snapshot",
-		"the map sent is not created per snapshot inside the callback: a map shared between deliveries is overwritten while the consumer still reads the previous snapshot")
+	c.Check(fresh, "R-C19-5", cons+"|delivered map is not mutated afterwards", pos(c, at),
+		"the map sent is created for this snapshot (in the callback or its converter)",
+		"the map sent is not created per snapshot: a map shared between deliveries is overwritten while the consumer still reads the previous snapshot")
 	// every key copied, value from the snapshot
+	var body *ast.BlockStmt
+	switch t := root.(type) {
+	case *ast.FuncLit:
+		body = t.Body
+	case *ast.BlockStmt:
+		body = t
+	}
 	if c.RequireCount("R-C19-5", "abstract iterations of the copy loop of "+cons, iters, 1) {
-		ok := badSkip == nil && len(breaksOut(lf, L, labelOf(lit.Body, L))) == 0
+		ok := badSkip == nil && len(breaksOut(g, L, labelOf(body, L))) == 0
 		c.Check(ok, "R-C19-5", cons+"|every key of the snapshot is copied", pos(c, L),
 			sprintf("%d abstract iteration end(s), each after m[key] was stored; the loop has no early exit", iters),
 			"an entry of the snapshot is skipped (or the loop left early) while the map is copied: the delivered map is not the content the store had", witness(badSkip)...)
 	}
 	valOK := true
 	var badStore ast.Node
-	vObj := c19obj(lf, L.Value)
+	vObj := c19obj(g, L.Value)
 	c19inspect(L.Body, func(n ast.Node) bool {
 		if !isStore(n) {
 			return true
@@ -407,11 +622,11 @@ func c19Adapter(c *core.Ctx, r *c19run, pkg *packages.Package, fd *ast.FuncDecl,
 			ast.Inspect(as.Rhs[i], func(x ast.Node) bool {
 				switch t := x.(type) {
 				case *ast.Ident:
-					if vObj != nil && lf.Info.Uses[t] == vObj {
+					if vObj != nil && g.Info.Uses[t] == vObj {
 						uses = true
 					}
 				case *ast.IndexExpr: // data[k] with k the loop's key
-					if isData(t.X) && c19obj(lf, t.Index) != nil && c19obj(lf, t.Index) == c19obj(lf, L.Key) {
+					if isData(t.X) && c19obj(g, t.Index) != nil && c19obj(g, t.Index) == c19obj(g, L.Key) {
 						uses = true
 					}
 				}
@@ -426,17 +641,17 @@ func c19Adapter(c *core.Ctx, r *c19run, pkg *packages.Package, fd *ast.FuncDecl,
 	c.Check(valOK, "R-C19-5", cons+"|copied value is the snapshot's value", pos(c, L),
 		"the value stored under each key is computed from the snapshot's entry for that key (the loop's value variable or data[key])",
 		"the value stored under a key is not derived from the snapshot's entry for that key ("+pos(c, badStore)+")")
-	// send after the loop
+	// handed over after the loop
 	var early *flow.State
-	for _, s := range sends {
+	for _, s := range handover {
 		for _, st := range res.At[s] {
 			if !st.Is(c19evDone, flow.True) || st.Is(c19evBody, flow.True) {
 				early = st
 			}
 		}
 	}
-	c.Check(early == nil, "R-C19-5", cons+"|send after the copy is complete", pos(c, sends[0]),
-		"every send is reached after the copy loop was exhausted",
+	c.Check(early == nil, "R-C19-5", cons+"|send after the copy is complete", pos(c, at),
+		"the map is sent / returned only after the copy loop was exhausted",
 		"the map is sent before all keys have been copied: the consumer receives a partial content", witness(early)...)
 }
 
@@ -544,8 +759,101 @@ func c19SingleKey(c *core.Ctx, cons string, lf *flow.Func, lit *ast.FuncLit, key
 				"nil ('key does not exist') is sent on a path where the key may exist in the snapshot: the consumer sees a deletion that never happened", witness(bad)...)
 			continue
 		}
+		// a same-package converter applied to the entry: nil / derived-from-entry is decided inside it
+		if call, ok := ast.Unparen(s.Value).(*ast.CallExpr); ok {
+			if fo, ok := lf.Callee(call).(*types.Func); ok && fo.Pkg() == lf.Pkg.Types {
+				if hfd := declOf(lf.Pkg, fo); hfd != nil {
+					idx := -1
+					for j, a := range call.Args {
+						if mentions(a) {
+							idx = j
+						}
+					}
+					hps := c19params(lf, hfd.Type)
+					if idx >= 0 && len(hps) == len(call.Args) {
+						c19EntryConverter(c, role, flow.NewFunc(lf.Pkg, hfd), hfd, hps[idx], s)
+						continue
+					}
+				}
+			}
+		}
 		c.Check(mentions(s.Value), "R-C19-5", role, pos(c, s),
 			"the value sent is derived from the snapshot's entry under the key",
 			"the value sent is not derived from the snapshot's entry under the key: the consumer does not receive the store's value")
+	}
+}
+
+// c19EntryConverter: a same-package function turns the entry under the key (parameter p) into
+// the value that is sent: it returns nil only where p is known nil and otherwise something
+// derived from p.
+func c19EntryConverter(c *core.Ctx, role string, h *flow.Func, hfd *ast.FuncDecl, p *types.Var, at ast.Node) {
+	c.Count("functions_analysed", 1)
+	pKey := h.NilKey(c19defIdent(h, hfd.Type, p))
+	tainted := map[types.Object]bool{p: true}
+	mentions := func(e ast.Expr) bool {
+		hit := false
+		ast.Inspect(e, func(x ast.Node) bool {
+			if id, ok := x.(*ast.Ident); ok {
+				if o := h.Info.Uses[id]; o != nil && tainted[o] {
+					hit = true
+				}
+			}
+			return true
+		})
+		return hit
+	}
+	for changed := true; changed; {
+		changed = false
+		c19inspect(hfd.Body, func(n ast.Node) bool {
+			as, ok := n.(*ast.AssignStmt)
+			if !ok || len(as.Lhs) != len(as.Rhs) {
+				return true
+			}
+			for i, l := range as.Lhs {
+				if o := c19obj(h, l); o != nil && !tainted[o] && mentions(as.Rhs[i]) {
+					tainted[o] = true
+					changed = true
+				}
+			}
+			return true
+		})
+	}
+	res := analyze(c, h, flow.Config{NoHavoc: true})
+	if res == nil {
+		return
+	}
+	var badNil *flow.State
+	var badVal ast.Node
+	n := 0
+	c19inspect(hfd.Body, func(x ast.Node) bool {
+		rs, ok := x.(*ast.ReturnStmt)
+		if !ok {
+			return true
+		}
+		n++
+		if len(rs.Results) != 1 {
+			badVal = rs
+			return true
+		}
+		if tv, ok := h.Info.Types[rs.Results[0]]; ok && tv.IsNil() {
+			for _, st := range res.At[rs] {
+				if !st.Is(pKey, flow.True) {
+					badNil = st
+				}
+			}
+			return true
+		}
+		if !mentions(rs.Results[0]) {
+			badVal = rs
+		}
+		return true
+	})
+	switch {
+	case n == 0 || badVal != nil:
+		c.Violate("R-C19-5", role, pos(c, at), "the converter applied to the entry under the key returns something that is not derived from that entry ("+pos(c, badVal)+"): the consumer does not receive the store's value")
+	case badNil != nil:
+		c.Violate("R-C19-5", role, pos(c, at), "nil ('key does not exist') is returned by the converter on a path where the key may exist in the snapshot: the consumer sees a deletion that never happened", witness(badNil)...)
+	default:
+		c.Discharge("R-C19-5", role, pos(c, at), sprintf("converter %s: %d return(s), nil only where the entry is nil, otherwise derived from the entry", h.Name, n))
 	}
 }
